@@ -228,7 +228,39 @@ def w_indep(arg):
     return acc.res()
 
 
+def _pf(lat, lon, i, surface, aa):
+    e = C.encode(Fr(lat).limit_denominator(10 ** 6), Fr(lon).limit_denominator(10 ** 6), i, surface)
+    me = C.me_surface(7, 12, 1, 40, i, e["yz"], e["xz"]) if surface else C.me_airborne(11, 0xC38, i, e["yz"], e["xz"])
+    return F.es(me, aa, 5, 17)
+
+
+def w_inter(_):
+    """re-entrancy (preemption bound 1, engine.interleave): a pair decode suspended before each of its source lines while
+    the decode of another aircraft's pair runs to completion; both must give the answers they give alone."""
+    from engine.util import interleaved_ok
+    acc = Acc()
+    for fn, cases in INTER:
+        bad_, n = interleaved_ok(getattr(pms.adsb, fn), cases())
+        acc.n += n
+        acc.c["interleaved_schedules"] += n
+        for a_, nm, k_ in bad_:
+            acc.bad("%s:answer_changes_when_another_call_runs_in_between" % "airborne", {"inter": fn, "a": list(a_), "preempt_before_line_event": k_})
+        acc.out.add(("inter", fn))
+    return acc.res()
+
+
+def _air_pairs():
+    return [(_pf(52.25, 3.9, 0, False, 0x4840D6), _pf(52.26, 3.91, 1, False, 0x4840D6), 10, 11),
+            (_pf(-33.4, 151.2, 0, False, 0x7C1234), _pf(-33.41, 151.19, 1, False, 0x7C1234), 21, 20),
+            (_pf(10.1, -75.5, 1, False, 0x0D0001), _pf(10.11, -75.49, 0, False, 0x0D0001), 5, 6)]
+
+
+INTER = [("airborne_position", _air_pairs), ("position", _air_pairs)]
+
+
 def w_any(t):
+    if t[0] == "r":
+        return w_inter(None)
     return {"l": w_lats, "s": w_sweep, "i": w_indep}[t[0]](t[1])
 
 
@@ -242,12 +274,15 @@ def run(ctx):
     corner_lats = [Fr(0), Fr(6), Fr(48), Fr(-48), Fr(6 * 4096, 131072) + 42, Fr(360, 59) * 3, Fr(5231, 100), Fr(-3391, 100), Fr(6 * 0x1F000, 131072) + 12,
                    Fr(6 * 0x1FFFF, 131072) + 18, Fr(6, 131072) + 24, Fr(86), Fr(-865, 10)]
     tasks += [("i", [la]) for la in corner_lats]
+    tasks.append(("r", None))
     ctx.pmap(w_any, tasks)
     ctx.cov["latitudes"] = len(lats)
     ctx.cov["lattice_sweep_step"] = step
 
 
 def replay(case):
+    if "inter" in case:
+        return [(s_, c_) for s_, c_ in w_inter(None)["viols"] if c_["inter"] == case["inter"]][:1]
     s = judge(tuple(case["p"]))
     if not s:
         return []
